@@ -357,6 +357,23 @@ def main(argv=None):
         traceback.print_exc()
         print(f"CHECKER-ERROR {a.pid}: crashed")
         return 3
+    if a.tier == "thorough" and code == 0 and getattr(mod, "MUTANTS", None) and not os.environ.get("PYVC_NO_SELFCHECK"):
+        # self-check of the machinery (DESIGN 3.11 e): each built-in mutant of the real text must be refuted by a named obligation
+        try:
+            from . import mutants
+            sc = mutants.self_check(a.pid)
+            lines.append(f"SELF-CHECK {a.pid}: built-in mutants refuted {len(sc['caught'])}/{len(sc['caught']) + len(sc['missed'])}"
+                         + (f", skipped {len(sc['skipped'])} (text no longer present)" if sc["skipped"] else ""))
+            evp = os.path.join(OUT, "evidence", f"{a.pid}.json")
+            ev = json.load(open(evp))
+            ev["coverage"]["self_check_mutants"] = sc
+            json.dump(ev, open(evp, "w"), indent=1)
+            for m_ in sc["missed"]:
+                lines.append(f"CHECKER-ERROR self-check: mutant {m_} of the real source is not refuted by any obligation")
+                code = 3
+        except Exception:
+            lines.append("CHECKER-ERROR self-check crashed: " + traceback.format_exc()[-300:].replace("\n", " | "))
+            code = 3
     if a.verbose:
         for r in results:
             for o in r["obligations"]:
